@@ -56,6 +56,24 @@ def nontrivial(line):
     return '"op":"add_' in line
 
 
+OP_KINDS = ["with_compression", "with_chunk_size", "with_encryption", "without_encryption", "add_data", "add_mixed_data",
+            "add_encrypted_data", "add_chunk", "build", "compress"]
+
+
+def tally_trace(ctx, trace):
+    """Anti-vacuity: which operations of the specification were really executed, with which outcome."""
+    ops = ctx.cov.setdefault("calls_executed", {})
+    with open(trace) as f:
+        for line in f:
+            if lib.is_new(line):
+                continue
+            i = line.find('"op":"')
+            op = line[i + 6:line.find('"', i + 6)]
+            res = "ok" if '"res":"ok"' in line else "err" if '"res":"err"' in line else "other"
+            d = ops.setdefault(op, {"ok": 0, "err": 0, "other": 0})
+            d[res] += 1
+
+
 def count_programs(path):
     """(programs, distinct non-trivial programs): non-trivial = at least one add call."""
     seen = set()
@@ -153,6 +171,7 @@ def judge_trace(ctx, trace, source, kd, max_events=40000):
               deviations={f: v.get("n" + f, 0) for f in ALL_FIDS if v.get("n" + f, 0)}, wall_s=v["wall_s"])
     lib.classify_trace(ctx, v, trace, source, program_of=program_of)
     add_counts(ctx, v)
+    tally_trace(ctx, trace)
     return v
 
 
@@ -325,6 +344,10 @@ def run(ctx):
     n0 = zero_chunk_size(ctx, kd)
     total += n0
     distinct += n0
+    never = [o for o in OP_KINDS if not ctx.cov["calls_executed"].get(o, {}).get("ok")]
+    ctx.cov["actions_never_taken"] = never
+    if never:
+        raise lib.ToolError(f"operations of the specification never executed successfully: {never}")
     ctx.cov["traces_validated_against_impl"] = total
     ctx.cov["evaluations"] = total
     ctx.cov["distinct_nontrivial"] = distinct
